@@ -7,6 +7,7 @@ model of RelicVerif/Model/Bn.lean (tied to the C code by the correspondence run 
 (no leading zero digit, digits < B, zero non-negative) and denotes exactly the integer v.
 -/
 import RelicVerif.Lemmas.BnHighMul
+import RelicVerif.Lemmas.BnSqrBasic
 
 namespace Relic.Props.C01
 open Relic.Model
@@ -53,6 +54,10 @@ theorem bn_mul_karat_exact (hw : 0 < cfg.w) (a b : Bn) (ha : a.WF cfg.B) (hb : b
 
 theorem bn_sqr_comba_exact (hw : 0 < cfg.w) (a : Bn) (ha : a.WF cfg.B) (hs : a.used < cfg.B) :
     Exact cfg.B (bnSqrComba cfg a) (a.toInt cfg.B * a.toInt cfg.B) := bnSqrComba_exact cfg hw a ha hs
+
+/-- schoolbook squaring (bn_sqra_low rows with the delayed carry) -/
+theorem bn_sqr_basic_exact (hw : 0 < cfg.w) (a : Bn) (ha : a.WF cfg.B) :
+    Exact cfg.B (bnSqrBasic cfg a) (a.toInt cfg.B * a.toInt cfg.B) := bnSqrBasic_exact cfg hw a ha
 
 theorem bn_sqr_karat_exact (hw : 0 < cfg.w) (a : Bn) (ha : a.WF cfg.B) (hs : a.used + 1 < cfg.B) :
     Exact cfg.B (bnSqrKarat cfg a) (a.toInt cfg.B * a.toInt cfg.B) := bnSqrKarat_exact cfg hw a ha hs
